@@ -50,6 +50,7 @@ type GenPlan struct {
 //	Kind "crash":          the generation dies.
 //	Kind "cancelBlocked":  cancel the request of the Arg-th client that is blocked in engine code (not parked).
 //	Kind "clock":          the clock jumps forward by Arg microseconds.
+//	Kind "clockns":        the clock jumps forward by Arg nanoseconds (off the microsecond grid).
 //
 // Trigger: if Point is empty the fault fires at the first step >= Step; otherwise it
 // fires when some task parks at Point for the Nth time (counted over the run).
@@ -71,6 +72,10 @@ type StoreFail struct {
 	Method string `json:"method"`
 	Nth    int    `json:"nth"`
 	Mode   int    `json:"mode"`
+	// OpTag, when set, makes Nth count the calls of Method made on behalf of the request of that
+	// name only (the ledger is then the request's): the fault follows the request wherever the
+	// schedule -- or the removal of other requests, as in the C14 differential -- puts it.
+	OpTag string `json:"opTag,omitempty"`
 }
 
 type PostingSpec struct {
@@ -125,6 +130,9 @@ type Op struct {
 	Tag string `json:"tag,omitempty"`
 	// Preview marks a request that exists only in the history with previews (C14).
 	Preview bool `json:"preview,omitempty"`
+	// MetaKey, when set, is one more key of the request's metadata (scripts only): "via" clashes
+	// with what some templates set through set_tx_meta, which the engine refuses after the run.
+	MetaKey string `json:"metaKey,omitempty"`
 }
 
 const (
